@@ -433,7 +433,8 @@ BBASSIGN = {
 
 class SymExec:
     def __init__(self, facts, body, cgen=None, tgen=None, max_paths=20000, inline=None,
-                 opaque=None, max_inline_blocks=20, max_depth=4, params=None, entry_store=None, raw=False, count_next=False, peel=False, record_assigns=False, unroll=0, rename=None):
+                 opaque=None, max_inline_blocks=20, max_depth=4, params=None, entry_store=None, raw=False, count_next=False, peel=False, record_assigns=False, unroll=0, rename=None,
+                 unroll_const=0):
         self.facts = facts
         self.ops = Ops(facts)
         self.body = body
@@ -448,6 +449,7 @@ class SymExec:
         self._loops = {}
         self._loopw = {}
         self.params = params
+        self.unroll_const = unroll_const      # loops over constant arrays of at most this many elements are executed element by element
         self.entry_store = entry_store
         self.nevents = 0
         self.raw = raw
@@ -1784,6 +1786,8 @@ class SymExec:
                 # a local array with known elements, iterated by reference
                 return ("iter", ("array", tuple(("ref", e) for e in v[1])))
             if a[0] == "ref":
+                if self.unroll_const and a[1][0] == "array" and len(a[1][1]) <= self.unroll_const:
+                    return ("iter", ("array", tuple(("ref", e) for e in a[1][1])))
                 return ("iter", a)        # `X.iter()` on a constant array reads like `for x in &X`
         if name == "core::iter::traits::iterator::Iterator::rev" and len(args) == 1 and args[0][0] == "iter":
             return ("iter", ("rev", args[0][1]))
@@ -1798,6 +1802,8 @@ class SymExec:
             a = args[0]
             if a[0] in ("iter", "iter*"):
                 return a
+            if self.unroll_const and a[0] == "ref" and a[1][0] == "array" and len(a[1][1]) <= self.unroll_const:
+                return ("iter", ("array", tuple(("ref", e) for e in a[1][1])))
             if a[0] == "ptr" and a[1][0] == "L" and not a[2] and not a[3]:
                 v = self.deref(st, a)
                 if v[0] == "array" and len(v[1]) <= 8:
